@@ -235,9 +235,22 @@ func deliveryReads(c *Ctx, fn *ssa.Function) []ssa.Instruction {
 			}
 			cal := call.Call.StaticCallee()
 			if cal == nil {
+				// through a private interface (`runner.run(func(tx) error {…})`): a closure argument that queries
+				if call.Call.IsInvoke() && len(c.privIfaceImpls(call)) > 0 {
+					for _, a := range call.Call.Args {
+						if f := funcOf(a); f != nil && reaches(f) {
+							out = append(out, in)
+						}
+					}
+				}
 				continue
 			}
 			if fnIs(cal, modPath+"/actions", "GetSubscriptionMessages.ExecuteClient") || fnIs(cal, modPath+"/actions", "GetSubscriptionMessages.Execute") {
+				out = append(out, in)
+				continue
+			}
+			// a private helper of the waiter that does the reading (`ms.refreshPending(ctx, …)`)
+			if cal.Object() != nil && !cal.Object().Exported() && c.inModule(cal) && !namedAnchors[c.Key(cal)] && helperReadsDeliveries(c, cal, 0) {
 				out = append(out, in)
 			}
 		}
@@ -909,7 +922,7 @@ func ruleC10_6(c *Ctx, r *Rep) {
 				"a waiter/hook map is accessed ("+a.what+") in "+c.Key(f)+" without holding nmu: concurrent registration and wake-up race (lost wake-up or crash)")
 		}
 	}
-	r.Floor("C10.6", n, 30)
+	r.Floor("C10.6", n, 20)
 }
 
 func ruleC10_7(c *Ctx, r *Rep) {
@@ -1090,4 +1103,34 @@ func helperWaits(c *Ctx, fn *ssa.Function, reads []ssa.Instruction) []waitSite {
 		}
 	}
 	return out
+}
+
+// helperReadsDeliveries: g (an unexported helper) finishes a select on deliveries, or calls the pull, itself or
+// through further private helpers.
+func helperReadsDeliveries(c *Ctx, g *ssa.Function, depth int) bool {
+	if depth > 2 || len(g.Blocks) == 0 {
+		return false
+	}
+	for _, s := range c.EntShape().Stmts {
+		if s.Table == "deliveries" && s.Kind == "select" {
+			for _, t := range s.Terms {
+				if top(t.Call.Parent()) == g {
+					return true
+				}
+			}
+		}
+	}
+	for _, ci := range callsIn(g, true, func(cal *ssa.Function, _ ssa.CallInstruction) bool { return true }) {
+		cal := ci.Common().StaticCallee()
+		if cal == nil {
+			continue
+		}
+		if fnIs(cal, modPath+"/actions", "GetSubscriptionMessages.ExecuteClient") || fnIs(cal, modPath+"/actions", "GetSubscriptionMessages.Execute") || c.Key(cal) == fnPullQuery {
+			return true
+		}
+		if cal.Object() != nil && !cal.Object().Exported() && c.inModule(cal) && !namedAnchors[c.Key(cal)] && helperReadsDeliveries(c, cal, depth+1) {
+			return true
+		}
+	}
+	return false
 }
